@@ -1,278 +1,88 @@
 import MsPack
-import MsPack.Driver.Util
+import MsPack.Driver.Core
+import MsPack.Driver.Prim
+import MsPack.Driver.Cab
+import MsPack.Driver.Chm
+import MsPack.Driver.Szdd
+import MsPack.Driver.Kwaj
+import MsPack.Driver.Oab
 /-
 mspack-driver: replays case files (PROTOCOL.md) on the Lean model and prints the result lines
-the C harness prints for the real library.  Ops the model does not cover print `<op> unsupported`.
+the C harness prints for the real library.  Ops no format module answers print `<op> unsupported`.
 -/
-open MsPack MsPack.Driver MsPack.Cab
-
-structure CabInst where
-  searchbuf : Nat := 32768
-  fixMszip  : Nat := 0
-  decompbuf : Nat := 4096
-  salvage   : Nat := 0
-  error     : Nat := 0
-  d         : Option DState := none
-
-inductive Inst
-  | cab (c : CabInst)
-  | other (fmt : String)
-  | dead
-
-inductive Handle
-  | cab (inst : Nat) (cid : CabId) (searchNext : Option Nat)
-  | dead
+open MsPack MsPack.Driver
 
 structure St where
-  files   : List (String × Bytes) := []
-  insts   : Array Inst := #[]
-  handles : Array Handle := #[]
-  heap    : Heap := {}
-  fill    : UInt8 := 0xa5
+  shared : Shared := {}
+  prim   : Prim.State := {}
+  cab    : Cab.State := {}
+  chm    : Chm.State := {}
+  szdd   : Szdd.State := {}
+  kwaj   : Kwaj.State := {}
+  oab    : Oab.State := {}
 
-abbrev M := StateT St IO
+/-- run one format's handler on the op; returns whether it answered -/
+def tryFmt {σ : Type} (h : List String → HM σ Bool) (get : St → σ) (set : St → σ → St)
+    (toks : List String) (st : St) : Bool × St × Array String :=
+  let (ok, hs) := (h toks).run { shared := st.shared, st := get st }
+  (ok, { set st hs.st with shared := hs.shared }, hs.lines)
 
-def out (s : String) : M Unit := IO.println s
+def dispatch (toks : List String) (st : St) : St × Array String :=
+  let try1 := tryFmt Prim.handle (·.prim) (fun s x => { s with prim := x }) toks st
+  if try1.1 then (try1.2.1, try1.2.2) else
+  let try2 := tryFmt Cab.handle (·.cab) (fun s x => { s with cab := x }) toks st
+  if try2.1 then (try2.2.1, try2.2.2) else
+  let try3 := tryFmt Chm.handle (·.chm) (fun s x => { s with chm := x }) toks st
+  if try3.1 then (try3.2.1, try3.2.2) else
+  let try4 := tryFmt Szdd.handle (·.szdd) (fun s x => { s with szdd := x }) toks st
+  if try4.1 then (try4.2.1, try4.2.2) else
+  let try5 := tryFmt Kwaj.handle (·.kwaj) (fun s x => { s with kwaj := x }) toks st
+  if try5.1 then (try5.2.1, try5.2.2) else
+  let try6 := tryFmt Oab.handle (·.oab) (fun s x => { s with oab := x }) toks st
+  if try6.1 then (try6.2.1, try6.2.2) else
+  (st, #[s!"{toks.headD "?"} unsupported"])
 
-def lookupFile (name : String) : M (Option Bytes) := do
-  return (← get).files.lookup name
+def addFile (st : St) (name : String) (b : Bytes) : St :=
+  { st with shared := { st.shared with files := (name, b) :: st.shared.files.filter (·.1 ≠ name) } }
 
-def dumpOne (k : Nat) (cid : CabId) : M Unit := do
-  let h := (← get).heap
-  match h.cab? cid with
-  | none => out s!"cab h{k} dead"
-  | some n =>
-    let c := n.hdr
-    out s!"cab h{k} off={c.baseOffset} len={c.length} set={c.setId} idx={c.setIndex} hres={c.headerResv} flags=0x{natHex c.flags} prevname={optHex c.prevname} nextname={optHex c.nextname} previnfo={optHex c.previnfo} nextinfo={optHex c.nextinfo} nfolders={n.folders.length} nfiles={n.files.length}"
-    let mut j := 0
-    for fid in n.folders do
-      match h.folder? fid with
-      | some f => out s!"folder {j} comp=0x{natHex f.compType} nblocks={f.numBlocks}"
-      | none => out s!"folder {j} dangling"
-      j := j + 1
-    j := 0
-    for fid in n.files do
-      match h.file? fid with
-      | some fn =>
-        let f := fn.data
-        let fj : String := match fn.folder with
-          | some fo => match n.folders.idxOf? fo with
-            | some i => toString i
-            | none => "-1"
-          | none => "-1"
-        out s!"file {j} name={optHex (some f.name)} len={f.length} attr=0x{natHex f.attribs} date={f.date_y}/{f.date_m}/{f.date_d} time={f.time_h}:{f.time_m}:{f.time_s} folder={fj} off={f.offset}"
-      | none => out s!"file {j} dangling"
-      j := j + 1
-
-/-- dump every cabinet reachable through the `search()` result chain from handle `k` -/
-def dumpChain (k : Nat) : M Unit := do
-  let mut cur := some k
-  let mut fuel := (← get).handles.size + 1
-  while fuel > 0 do
-    fuel := fuel - 1
-    match cur with
-    | none => break
-    | some hk =>
-      match (← get).handles[hk]? with
-      | some (.cab _ cid nxt) => dumpOne hk cid; cur := nxt
-      | _ => break
-
-def parseInst (s : String) : Option Nat := if s.startsWith "i" then (s.drop 1).toString.toNat? else none
-def parseHandle (s : String) : Option Nat := if s.startsWith "h" then (s.drop 1).toString.toNat? else none
-
-def setCab (i : Nat) (ci : CabInst) : M Unit :=
-  modify fun s => { s with insts := s.insts.set! i (.cab ci) }
-
-def getCabInst (tok : String) : M (Option (Nat × CabInst)) := do
-  match parseInst tok with
-  | some i => match (← get).insts[i]? with
-    | some (.cab ci) => return some (i, ci)
-    | _ => return none
-  | none => return none
-
-def getCabHandle (tok : String) : M (Option (Nat × CabId × Option Nat)) := do
-  match parseHandle tok with
-  | some k => match (← get).handles[k]? with
-    | some (.cab _ cid nxt) => return some (k, cid, nxt)
-    | _ => return none
-  | none => return none
-
-def errOf (e : Err) : Nat := e.code
-
-def doMerge (op i ha hb : String) : M Unit := do
-  match ← getCabInst i, ← getCabHandle ha, ← getCabHandle hb with
-  | some (i, ci), some (_, ca, _), some (_, cb, _) =>
-    let (l, r) := if op = "append" then (ca, cb) else (cb, ca)
-    let (e, heap) := (← get).heap.merge (some l) (some r)
-    modify fun s => { s with heap := heap }
-    setCab i { ci with error := e.code }
-    out s!"{op} st={e.code} err={e.code}"
-  | _, _, _ => out s!"{op} unsupported"
-
-def doOp (toks : List String) : M Unit := do
+def doLine (st : St) (toks : List String) : IO St := do
   match toks with
   | ["file", name, hex] =>
     match parseHex hex with
-    | some bs => modify fun s => { s with files := (name, bs) :: s.files }
-    | none => out "bad-case"
+    | some bs => return addFile st name bs
+    | none => IO.println "error bad-directive"; return st
   | ["filerep", name, n, hex] =>
     match parseHex hex, n.toNat? with
     | some bs, some n =>
       let reps := if bs.isEmpty then [] else ((List.replicate (n / bs.length + 1) bs).flatten).take n
-      modify fun s => { s with files := (name, reps) :: s.files }
-    | _, _ => out "bad-case"
+      return addFile st name reps
+    | _, _ => IO.println "error bad-directive"; return st
   | ["fileref", name, path] =>
     let ba ← IO.FS.readBinFile path
-    modify fun s => { s with files := (name, ba.toList) :: s.files }
+    return addFile st name ba.toList
   | ["fill", hh] =>
     match parseHex hh with
-    | some [b] => modify fun s => { s with fill := b }
-    | _ => out "bad-case"
-  | "fault" :: _ => pure ()
-  | "trace" :: _ => pure ()
-  | "edges" :: _ => pure ()
-  | "new" :: fmt :: rest =>
-    let st ← get
-    let i := st.insts.size
-    if rest ≠ [] ∧ rest ≠ ["default"] then out "bad-case" else
-    let inst := if fmt = "cab" then Inst.cab {} else Inst.other fmt
-    set { st with insts := st.insts.push inst }
-    out s!"new {fmt} i{i}"
-  | ["param", i, name, v] =>
-    match ← getCabInst i, v.toInt? with
-    | some (i, ci), some v =>
-      let small := v < 4
-      let (ci', st) : CabInst × Nat := match name with
-        | "SEARCHBUF" => if small then (ci, 1) else ({ ci with searchbuf := v.toNat }, 0)
-        | "DECOMPBUF" => if small then (ci, 1) else ({ ci with decompbuf := v.toNat }, 0)
-        | "FIXMSZIP" => ({ ci with fixMszip := if v = 0 then 0 else 1 }, 0)
-        | "SALVAGE" => ({ ci with salvage := if v = 0 then 0 else 1 }, 0)
-        | _ => (ci, 1)
-      setCab i ci'
-      out s!"param st={st}"
-    | _, _ => out "param unsupported"
-  | ["open", i, name] =>
-    match ← getCabInst i with
-    | some (i, ci) =>
-      match ← lookupFile name with
-      | none => setCab i { ci with error := 2 }; out "open NULL st=2 err=2"
-      | some bytes =>
-        match readHeaders bytes 0 (ci.salvage ≠ 0) with
-        | .ok c =>
-          setCab i { ci with error := 0 }
-          let k := (← get).handles.size
-          let (heap, cid) := (← get).heap.addCabinet name c
-          modify fun s => { s with heap := heap, handles := s.handles.push (.cab i cid none) }
-          out s!"open h{k} st=0 err=0"
-          dumpOne k cid
-        | .error e => setCab i { ci with error := e.code }; out s!"open NULL st={e.code} err={e.code}"
-    | none => out "open unsupported"
-  | ["search", i, name] =>
-    match ← getCabInst i with
-    | some (i, ci) =>
-      match ← lookupFile name with
-      | none => setCab i { ci with error := 2 }; out "search NULL st=2 err=2"
-      | some bytes =>
-        let (cabs, fin) := find ci.searchbuf (ci.salvage ≠ 0) bytes
-        if fin = .hang then out "search HANG" else
-        setCab i { ci with error := 0 }
-        if cabs.isEmpty then out "search NULL st=0 err=0" else
-        let k := (← get).handles.size
-        let mut j := k
-        for c in cabs do
-          let (heap, cid) := (← get).heap.addCabinet name c
-          let nxt := if j + 1 < k + cabs.length then some (j + 1) else none
-          modify fun s => { s with heap := heap, handles := s.handles.push (.cab i cid nxt) }
-          j := j + 1
-        out s!"search h{k}..h{k + cabs.length - 1} st=0 err=0"
-        dumpChain k
-    | none => out "search unsupported"
-  | ["dump", _, hk] =>
-    match ← getCabHandle hk with
-    | some (k, _, _) => out "dump"; dumpChain k
-    | none => out "dump unsupported"
-  | ["append", i, ha, hb] => doMerge "append" i ha hb
-  | ["prepend", i, ha, hb] => doMerge "prepend" i ha hb
-  | ["close", i, hk] =>
-    match ← getCabInst i, ← getCabHandle hk with
-    | some (i, ci), some (k, _, _) =>
-      -- close the handle's cabinet and every cabinet after it in its search() result chain
-      let mut cur := some k
-      let mut ci := { ci with error := 0 }
-      let mut fuel := (← get).handles.size + 1
-      while fuel > 0 do
-        fuel := fuel - 1
-        match cur with
-        | none => break
-        | some hk =>
-          match (← get).handles[hk]? with
-          | some (.cab _ cid nxt) =>
-            let heap := (← get).heap
-            match heap.cab? cid with
-            | some n =>
-              -- a cached decoder on one of the freed folders is dropped
-              match ci.d with
-              | some ds => if n.folders.contains ds.folder then ci := { ci with d := none }
-              | none => pure ()
-              let gone := cid :: (heap.prevChain cid ++ heap.nextChain cid)
-              let heap' := heap.close cid
-              let kill (h : Handle) : Handle := match h with
-                | .cab _ c _ => if gone.contains c then .dead else h
-                | .dead => .dead
-              modify fun s => { s with heap := heap', handles := s.handles.map kill }
-            | none => pure ()
-            cur := nxt
-          | _ => break
-      setCab i ci
-      out "close ok"
-    | _, _ => out "close unsupported"
-  | ["extract", i, hk, idx, outName] =>
-    match ← getCabInst i, ← getCabHandle hk, idx.toNat? with
-    | some (i, ci), some (_, cid, _), some idx =>
-      let st ← get
-      match (st.heap.cab? cid).bind (fun n => n.files[idx]?) with
-      | none => out "extract bad-index"
-      | some fid =>
-        match st.heap.member fid with
-        | none => out "extract bad-handle"
-        | some m =>
-          let p : Params := { bufSize := ci.decompbuf, fixMszip := ci.fixMszip ≠ 0, salvage := ci.salvage ≠ 0, fill := st.fill }
-          match extract st.files p ci.d m with
-          | .unsupported => out "extract unsupported"
-          | .fault f => out s!"extract FAULT {reprStr f}"
-          | .done e written d =>
-            setCab i { ci with error := e.code, d := d }
-            match written with
-            | some w => modify fun s => { s with files := (outName, w) :: s.files.filter (·.1 ≠ outName) }
-            | none => pure ()
-            let digest := match (← get).files.lookup outName with
-              | some b => outDigest b
-              | none => "-"
-            out s!"extract st={e.code} err={e.code} written={(written.getD []).length} declared={m.length} out={digest}"
-    | _, _, _ => out "extract unsupported"
-  | ["destroy", i] =>
-    match ← getCabInst i with
-    | some (i, _) => modify fun s => { s with insts := s.insts.set! i .dead }; out "destroy ok"
-    | none => out "destroy unsupported"
-  | ["prim", "cksum", hex, seed] =>
-    match parseHex hex, parseNat seed with
-    | some bs, some s => out s!"prim cksum {cksum bs s}"
-    | _, _ => out "bad-case"
-  | "end" :: _ => pure ()
-  | op :: _ => out s!"{op} unsupported"
-  | [] => pure ()
+    | some [b] => return { st with shared := { st.shared with fill := b } }
+    | _ => IO.println "error bad-directive"; return st
+  | "fault" :: _ => return st
+  | "trace" :: _ => return st
+  | "edges" :: _ => return st
+  | "end" :: _ => return st
+  | [] => return st
+  | _ =>
+    let (st, lines) := dispatch toks st
+    for l in lines do IO.println l
+    return st
 
 def runCase (path : String) : IO Unit := do
   IO.println s!"== CASE {path}"
   let text ← IO.FS.readFile path
-  let lines := text.splitOn "\n"
-  let act : M Unit := do
-    for l in lines do
-      let l := l.trimAscii.toString
-      if l.isEmpty || l.startsWith "#" then continue
-      doOp (l.splitOn " ")
-    out "end"
-  let _ ← act.run {}
+  let mut st : St := {}
+  for l in text.splitOn "\n" do
+    let l := l.trimAscii.toString
+    if l.isEmpty || l.startsWith "#" then continue
+    st ← doLine st (l.splitOn " ")
+  IO.println "end"
   (← IO.getStdout).flush
 
 def main (args : List String) : IO UInt32 := do
